@@ -5,6 +5,7 @@
    uuid.UUID text parsing, a strict timestamp reader/writer.  No proofs.     *)
 From Coq Require Import NArith ZArith List String Bool Ascii.
 From V Require Import Base.UString Base.Json Model.SchemaTypes.
+From V Require Model.Calendar Model.Timestamp.
 Import ListNotations.
 Open Scope N_scope.
 
@@ -248,14 +249,18 @@ Definition sel_index_step (x : ustring) : bool :=
   end.
 Definition sel_name_step (lo hi : nat) (x : ustring) : bool :=
   forallb is_selchar x && Nat.leb lo (List.length x) && Nat.leb (List.length x) hi.
-Definition re_selector_exact (s : ustring) : bool :=
+Definition sel_name_step_up (lo hi : nat) (x : ustring) : bool :=
+  forallb (fun c => is_selchar c || is_upper c) x && Nat.leb lo (List.length x) && Nat.leb (List.length x) hi.
+Definition re_selector_exact_gen (upper : bool) (s : ustring) : bool :=
   ustr_eqb s (u "id") ||
   match usplit_dot s [] with
-  | first :: rest => sel_name_step 3 250 first && forallb (fun x => sel_index_step x || sel_name_step 1 250 x) rest
+  | first :: rest => sel_name_step 3 250 first &&
+                     forallb (fun x => sel_index_step x || (if upper then sel_name_step_up 1 250 x else sel_name_step 1 250 x)) rest
   | [] => false
   end.
+Definition re_selector_exact (s : ustring) : bool := re_selector_exact_gen false s.
 (* \d in Python 3 str patterns also matches non-ASCII decimal digits: ASCII-only model *)
-Definition re_selector (z : bool) (s : ustring) : bool := dollar z re_selector_exact s.
+Definition re_selector (z upper : bool) (s : ustring) : bool := dollar z (re_selector_exact_gen upper) s.
 
 (* ---------- uuid.UUID(text) ---------- *)
 (* hex = text.replace('urn:','').replace('uuid:',''); hex = hex.strip('{}').replace('-','');
@@ -336,7 +341,11 @@ Arguments algis _ _%string.
 Definition check_hash (z : bool) (alg : ustring) (v : ustring) : bool :=
   let hexlen_ok := hexlen_ok z in
   if algis alg "MD5" then hexlen_ok [32%nat] v
-  else if algis alg "MD6" then forallb is_hexdigit (utake 32 v) && Nat.leb 32 (List.length v)
+  else if algis alg "MD6" then
+    (* pinned: ^h{32}|h{40}|...|h{128}$ -- only the first alternative counts under re.match, and it is
+       anchored at the start only; repaired: ^(?:h{32}|...|h{128})\Z *)
+    if z then hexlen_ok [32; 40; 56; 64; 96; 128]%nat v
+    else forallb is_hexdigit (utake 32 v) && Nat.leb 32 (List.length v)
   else if algis alg "RIPEMD160" || algis alg "SHA1" then hexlen_ok [40%nat] v
   else if algis alg "SHA224" || algis alg "SHA3224" then hexlen_ok [56%nat] v
   else if algis alg "SHA256" || algis alg "SHA3256" then hexlen_ok [64%nat] v
@@ -444,9 +453,39 @@ Definition ts_format (p : prec) (c : pconstr) (t : tstamp) : ustring :=
   zdigits 2 (ts_h t) [] ++ [58] ++ zdigits 2 (ts_mi t) [] ++ [58] ++ zdigits 2 (ts_s t) [] ++
   (match fr with [] => [] | _ => 46 :: fr end) ++ [90].
 
-(* TimestampProperty.clean on a JSON string, then serialization: (instant, text) *)
-Definition ts_clean (p : prec) (c : pconstr) (s : ustring) : result (Z * ustring) :=
-  do t <- parse_ts_strict s;
-  let t' := {| ts_y := ts_y t; ts_mo := ts_mo t; ts_d := ts_d t; ts_h := ts_h t; ts_mi := ts_mi t;
-               ts_s := ts_s t; ts_us := ts_adjust p c (ts_us t) |} in
-  Ok (ts_instant t', ts_format p c t').
+(* TimestampProperty.clean on a JSON string, then serialization: (stored instant, text).
+   parse_into_datetime and format_datetime are the C15 model (Model/Timestamp.v: the two strptime
+   formats with every lenient spelling, truncation per precision, the fraction rules). *)
+Definition ts_prec (p : prec) : Timestamp.precision :=
+  match p with PAny => Timestamp.PAny | PSecond => Timestamp.PSecond | PMilli => Timestamp.PMilli end.
+Definition ts_constr (c : pconstr) : Timestamp.pconstraint :=
+  match c with CExact => Timestamp.CExact | CMin => Timestamp.CMin end.
+Definition ts_clean (pad : bool) (p : prec) (c : pconstr) (s : ustring) : result (Z * ustring) :=
+  match Timestamp.parse_strptime s with
+  | Some t =>
+    let t' := Timestamp.stored_trunc (ts_prec p) (ts_constr c) t in
+    Ok (t', Timestamp.format (if pad then Timestamp.Pad4 else Timestamp.Unpadded) (ts_prec p) (ts_constr c) t')
+  | None => Err EValueError
+  end.
+
+(* TimestampProperty.clean on the constructor's clock reading (an aware UTC datetime) *)
+Definition ts_clean_now (pad : bool) (p : prec) (c : pconstr) (now : Z) : result (Z * ustring) :=
+  if Calendar.in_range now then
+    let t' := Timestamp.stored_trunc (ts_prec p) (ts_constr c) now in
+    Ok (t', Timestamp.format (if pad then Timestamp.Pad4 else Timestamp.Unpadded) (ts_prec p) (ts_constr c) t')
+  else Unmodelled.
+
+(* ---------- base64.b64decode(text) (binascii.a2b_base64, non-strict) ---------- *)
+(* characters outside the alphabet are skipped; a run of '=' that completes a quad ends the
+   parse; at the end an incomplete quad is an error.  True = decodes, false = binascii.Error. *)
+Definition is_b64char (c : N) := is_digit c || is_lower c || is_upper c || (c =? 43) || (c =? 47).
+Fixpoint b64_scan (s : ustring) (quad pads : nat) : bool :=
+  match s with
+  | [] => Nat.eqb quad 0
+  | c :: r =>
+    if c =? 61 then
+      if Nat.leb 2 quad && Nat.leb 4 (quad + S pads) then true else b64_scan r quad (S pads)
+    else if is_b64char c then b64_scan r (Nat.modulo (S quad) 4) 0
+    else b64_scan r quad pads
+  end.
+Definition b64_ok (s : ustring) : bool := b64_scan s 0 0.
